@@ -132,6 +132,10 @@ def cases(tier, seed):
                [("m.pn", "extern fn main() -> i32\n{\n\treturn: 3\n}\n")]):
         yield {"kind": "special_export", "files": fs}
         yield {"kind": "special_export_wasm", "files": fs, "wasm": True}
+    # constants and functions have separate namespaces: a constant may be named like `main` or like a public function
+    specials.append("const main: i32 = 5;\n\nconst twice: [2]i32 = [2, 3];\n\nconst helper: i64 = 9;\n\npub fn twice(x: i32) -> i32\n{\n"
+                    "\treturn: x * twice[0]\n}\n\nfn helper() -> i64\n{\n\treturn: helper\n}\n\nfn main() -> i32\n{\n"
+                    "\treturn: main + twice(1) + helper() as i32\n}\n")
     for s in specials:
         yield {"kind": "special", "files": [("special.pn", s)]}
         yield {"kind": "special_wasm", "files": [("special.pn", s)], "wasm": True}
